@@ -43,6 +43,9 @@ struct Acc {
 
 impl Acc {
     fn new(prop: &'static str, part: &'static str) -> Acc {
+        if streaming() {
+            println!("PART {}", part);
+        }
         Acc {
             prop,
             part,
@@ -63,6 +66,10 @@ impl Acc {
     }
     fn fail(&mut self, kind: &str, detail: String) {
         if self.viol.len() < 5 {
+            if streaming() {
+                // the parent must learn about it even if a later case kills this process
+                println!("FAIL {}", json!({"part": self.part, "kind": kind, "detail": detail}));
+            }
             self.viol.push(PureViolation {
                 kind: kind.to_string(),
                 detail: detail.clone(),
@@ -638,11 +645,116 @@ fn c19() -> PureResult {
 pub fn run(prop: &str, tier: &str, known: &[crate::runner::Known]) -> Option<PureResult> {
     match prop {
         "C07" => Some(c07(tier, known)),
-        "C11" => Some(c11()),
-        "C12" => Some(c12()),
-        "C19" => Some(c19()),
+        "C11" | "C12" | "C19" => Some(run_isolated(prop)),
         _ => None,
     }
+}
+
+fn run_inline(prop: &str) -> PureResult {
+    match prop {
+        "C11" => c11(),
+        "C12" => c12(),
+        _ => c19(),
+    }
+}
+
+static STREAMING: std::sync::atomic::AtomicBool = std::sync::atomic::AtomicBool::new(false);
+fn streaming() -> bool {
+    STREAMING.load(std::sync::atomic::Ordering::Relaxed)
+}
+
+/// `circ-mc purechild <prop>`: runs the grid, reporting every failure at once and the totals at
+/// the end.
+pub fn child(prop: &str) -> i32 {
+    STREAMING.store(true, std::sync::atomic::Ordering::Relaxed);
+    let r = run_inline(prop);
+    println!(
+        "RESULT {}",
+        json!({
+            "evaluations": r.evaluations, "distinct": r.distinct, "rule": r.rule, "samples": r.samples,
+            "per_part": r.per_part, "exhaustive": r.exhaustive, "machinery": r.machinery,
+            "assumptions": r.assumptions, "bounds": r.bounds,
+            "violations": r.violations.iter().map(|v| json!({"kind": v.kind, "detail": v.detail, "replay": v.replay})).collect::<Vec<_>>(),
+        })
+    );
+    0
+}
+
+/// The grids call the real pointer operations on real objects: a change that corrupts an address
+/// makes the process die. That is an observation about the library, so the grid runs in a child.
+fn run_isolated(prop: &str) -> PureResult {
+    let prop_s: &'static str = match prop {
+        "C11" => "C11",
+        "C12" => "C12",
+        _ => "C19",
+    };
+    let out = std::process::Command::new(std::env::current_exe().unwrap()).args(["purechild", prop]).output();
+    let out = match out {
+        Ok(o) => o,
+        Err(e) => {
+            return PureResult {
+                machinery: vec![format!("could not start the grid process: {}", e)],
+                ..Default::default()
+            }
+        }
+    };
+    let text = String::from_utf8_lossy(&out.stdout);
+    let strs = |v: &Value| v.as_array().map(|a| a.iter().filter_map(|x| x.as_str().map(String::from)).collect::<Vec<_>>()).unwrap_or_default();
+    if let Some(l) = text.lines().find_map(|l| l.strip_prefix("RESULT ")) {
+        if let Ok(v) = serde_json::from_str::<Value>(l) {
+            return PureResult {
+                evaluations: v["evaluations"].as_u64().unwrap_or(0),
+                distinct: v["distinct"].as_u64().unwrap_or(0),
+                rule: v["rule"].as_str().unwrap_or("").to_string(),
+                samples: v["samples"].as_array().cloned().unwrap_or_default(),
+                per_part: v["per_part"].as_array().cloned().unwrap_or_default(),
+                exhaustive: v["exhaustive"].as_bool().unwrap_or(false),
+                machinery: strs(&v["machinery"]),
+                assumptions: strs(&v["assumptions"]),
+                bounds: v["bounds"].clone(),
+                known_hits: vec![],
+                violations: v["violations"]
+                    .as_array()
+                    .map(|a| {
+                        a.iter()
+                            .map(|x| PureViolation {
+                                kind: x["kind"].as_str().unwrap_or("").to_string(),
+                                detail: x["detail"].as_str().unwrap_or("").to_string(),
+                                replay: x["replay"].clone(),
+                            })
+                            .collect()
+                    })
+                    .unwrap_or_default(),
+            };
+        }
+    }
+    // no totals: the process died in the middle of a part
+    let mut r = PureResult {
+        rule: "the grid process died before finishing; only the failures it reported until then are listed".into(),
+        ..Default::default()
+    };
+    let mut part = "start".to_string();
+    for l in text.lines() {
+        if let Some(p) = l.strip_prefix("PART ") {
+            part = p.to_string();
+        } else if let Some(f) = l.strip_prefix("FAIL ") {
+            if let Ok(v) = serde_json::from_str::<Value>(f) {
+                let (kind, detail) = (v["kind"].as_str().unwrap_or("").to_string(), v["detail"].as_str().unwrap_or("").to_string());
+                r.violations.push(PureViolation {
+                    replay: json!({"engine": "E", "property": prop_s, "part": v["part"], "kind": kind, "detail": detail}),
+                    kind,
+                    detail,
+                });
+            }
+        }
+    }
+    let detail = format!("the process running the grid died ({}) in part '{}'", out.status, part);
+    r.violations.push(PureViolation {
+        kind: "process-death".into(),
+        replay: json!({"engine": "E", "property": prop_s, "part": part, "kind": "process-death", "detail": detail}),
+        detail,
+    });
+    r
 }
 
 // ------------------------------------------------------------------------------------ C07
